@@ -155,6 +155,10 @@ type c08Sample struct {
 // C08: results do not depend on how the reader segments its data.
 func C08(tier string) {
 	r := ev.Begin("C08", tier, "model_checking")
+	envxSelfTest(r, "harness")
+	if r.NViolations() > 0 {
+		r.Finish()
+	}
 	r.NotExhaustive()
 	bound := 2
 	if tier == "thorough" {
